@@ -50,12 +50,13 @@ fn codec_one(n: RNum, acc: &mut Acc, via_doc: bool) {
             Err(p) => acc.vio(&format!("doc-cast:{}", panic_class(&p)), || json!({"doc": hex(&doc)})),
             Ok((an, ai, au, af, isn, isi, isu, isf)) => {
                 let ok = an.as_ref().map(from_num_raw) == Some(n)
-                    && ai == n.view_i64()
-                    && au == n.view_u64()
+                    && n.view_i64_admissible(ai)
+                    && n.view_u64_admissible(au)
+                    && (ai, au) == (num.as_i64(), num.as_u64())
                     && af.map(|f| f.to_bits()) == num.as_f64().map(|f| f.to_bits())
                     && isn
-                    && isi == n.view_i64().is_some()
-                    && isu == n.view_u64().is_some()
+                    && isi == ai.is_some()
+                    && isu == au.is_some()
                     && isf;
                 if !ok {
                     acc.vio("doc-cast:differs-from-number-views", || json!({"number": format!("{:?}", n), "as_number": format!("{:?}", an), "as_i64": ai, "as_u64": au, "as_f64": af}));
@@ -67,10 +68,10 @@ fn codec_one(n: RNum, acc: &mut Acc, via_doc: bool) {
 
 fn views_one(n: RNum, num: &Number, acc: &mut Acc) {
     let (vi, vu, vf) = (num.as_i64(), num.as_u64(), num.as_f64());
-    if vi != n.view_i64() {
+    if !n.view_i64_admissible(vi) {
         acc.vio("view:as_i64-not-exact-or-absent", || json!({"number": format!("{:?}", n), "as_i64": vi}));
     }
-    if vu != n.view_u64() {
+    if !n.view_u64_admissible(vu) {
         acc.vio("view:as_u64-not-exact-or-absent", || json!({"number": format!("{:?}", n), "as_u64": vu}));
     }
     match (n.as_int(), vf) {
